@@ -4,7 +4,7 @@
 #include "ref/val.h"
 #include "vlib/rt.h"
 namespace vf {
-struct GenOpts { size_t max_seq = 300; bool big = false; int handle_mode = 0; };
+struct GenOpts { size_t max_seq = 300; bool big = false; int handle_mode = 0; bool force_big = false; /* top-level STR/BIN: more than 64 KiB of payload */ };
 struct Gen {
   Rng& r; GenOpts o;
   explicit Gen(Rng& rng, GenOpts opts = GenOpts()) : r(rng), o(opts) {}
@@ -37,11 +37,12 @@ struct Gen {
       case K::INT: v.u = edge_int(s.bits); break;
       case K::F32: { static const uint32_t e[] = {0, 0x80000000u, 0x3f800000u, 0x7f800000u, 0xff800000u, 0x7fc00000u, 0x7fc12345u, 0xffc00001u, 0x7f800001u, 1, 0x7f7fffffu, 0x00800000u}; v.u = r.below(2) ? e[r.below(12)] : (uint32_t)r.next(); } break;
       case K::F64: { static const uint64_t e[] = {0, 0x8000000000000000ull, 0x3ff0000000000000ull, 0x7ff0000000000000ull, 0x7ff8000000000000ull, 0x7ff8000000012345ull, 0xfff0000000000001ull, 1, 0x7fefffffffffffffull}; v.u = r.below(2) ? e[r.below(9)] : r.next(); } break;
-      case K::STR: { size_t n = depth > 1 ? count() % 40 : count(); size_t cs = s.bits / 8; v.bytes.resize(n * cs); int mode = (int)r.below(3); for (auto& c : v.bytes) c = mode == 0 ? (char)('a' + r.below(26)) : (char)r.next(); } break;
+      case K::STR: { size_t n = depth > 1 ? count() % 40 : count(); if (o.force_big && depth == 0) n = 66000 + r.below(3000); size_t cs = s.bits / 8; v.bytes.resize(n * cs); int mode = (int)r.below(3); for (auto& c : v.bytes) c = mode == 0 ? (char)('a' + r.below(26)) : (char)r.next(); } break;
       case K::BIN: {
         size_t n = s.len == Len::FIXED ? s.n : s.len == Len::CAP ? std::min<size_t>(count(), s.n) : (depth > 1 ? count() % 40 : count());
         if (s.len == Len::CAP && r.chance(1, 4)) n = s.n;
         if (s.len == Len::CAP && r.chance(1, 8) && s.n > 0) n = s.n - 1;
+        if (o.force_big && depth == 0 && s.len == Len::VAR) n = (66000 + r.below(3000)) / (s.bits / 8) + r.below(3);
         v.bytes.resize(n * (s.bits / 8)); for (auto& c : v.bytes) c = s.boolel ? (char)r.below(2) : (char)r.next();
       } break;
       case K::ARY: {
@@ -56,7 +57,7 @@ struct Gen {
       } break;
       case K::OPT: v.u = r.below(3) != 0; if (v.u) v.kids.push_back(gen(s.kids[0], depth + 1)); break;
       case K::RES: v.u = r.below(3); if (v.u == 2) v.kids.push_back(gen(s.kids[1], depth + 1)); else if (v.u == 1) { Val e = gen(s.kids[0]); if (e.u == 0) e.u = 1; v.kids.push_back(e); } break;
-      case K::VAR: v.u = r.below(s.kids.size() + 1); if (v.u) v.kids.push_back(gen(s.kids[v.u - 1], depth + 1)); break;
+      case K::VAR: v.u = r.below(s.kids.size() + 1); if (s.kids.size() > 100 && r.chance(1, 2)) v.u = s.kids.size() - r.below(4);   /* high indices of wide variants */ if (v.u) v.kids.push_back(gen(s.kids[v.u - 1], depth + 1)); break;
       case K::NILV: break;
       case K::HND: { static const int64_t hv[] = {-1, 0, 1, 2, 3, 100, 127, 128, 1000, 65536, 2147483647}; v.u = (uint64_t)hv[r.below(11)]; } break;   // handle values are ints
       case K::TAB: for (size_t i = 0; i < s.kids.size(); i++) { Val e; e.u = s.active[i] && r.below(3) != 0; if (e.u) e.kids.push_back(gen(s.kids[i], depth + 1)); v.kids.push_back(e); } break;
